@@ -30,6 +30,8 @@ pub struct HistCfg {
   pub bu_over_report: bool,
   /// also sessions that run the bottom-up build twice (same report; the second build must find nothing to do)
   pub bu_twice: bool,
+  /// also top-down sessions that are used again after a caught panic (each require caught on its own)
+  pub keep_session: bool,
   pub set_fail: bool,
   /// crash decorations: number of crashes allowed per history
   pub crashes: usize,
@@ -75,6 +77,7 @@ pub fn step_digest(st: &Step) -> u64 {
     Outcome::Applied => 0u8.hash(&mut h),
     Outcome::Returned(o) => { 1u8.hash(&mut h); o.hash(&mut h); }
     Outcome::Panicked(p) => { 2u8.hash(&mut h); p.msg.hash(&mut h); }
+    Outcome::Partial(o, ps) => { 3u8.hash(&mut h); o.hash(&mut h); for p in ps { p.msg.hash(&mut h); } }
   }
   h.finish()
 }
@@ -167,6 +170,9 @@ fn enabled_events(prog: &Prog, cfg: &HistCfg, node: &NodeRec) -> Vec<Event> {
     }
   }
   for roots in sequences(prog.n_tasks(), cfg.max_roots) { evs.push(Event::TopDown(roots)); }
+  if cfg.keep_session && cfg.max_roots >= 2 {
+    for roots in sequences(prog.n_tasks(), 2) { if roots.len() == 2 { evs.push(Event::TopDownKeep(roots)); } }
+  }
   if cfg.max_roots >= 2 {
     // the same root twice in one session (the session-level "already consistent" path)
     for t in 0..prog.n_tasks() as Tid { evs.push(Event::TopDown(vec![t, t])); }
@@ -284,6 +290,9 @@ pub fn judge_path(prog: &Prog, class: Class, cfg: &HistCfg, path: &[PEvent], cra
     let pre_mixed = an.mixed;
     let st = live.apply(pev).clone();
     if st.pev.ev.is_build() { sessions += 1; }
+    if let Outcome::Partial(_, ps) = &st.outcome {
+      for p in ps { if is_harness_bug(p) { engine_error(&format!("harness bug while executing {:?} of program {}: {} ({}:{})", path_strings(path), prog.short(), p.msg, p.file, p.line)); } }
+    }
     if let Outcome::Panicked(p) = &st.outcome {
       if is_harness_bug(p) { engine_error(&format!("harness bug while executing {:?} of program {}: {} ({}:{})", path_strings(path), prog.short(), p.msg, p.file, p.line)); }
     }
@@ -330,7 +339,7 @@ pub fn judge_path(prog: &Prog, class: Class, cfg: &HistCfg, path: &[PEvent], cra
           Outcome::Panicked(p) => {
             problems.push(("probe-abort".into(), format!("after the bottom-up build, requiring all known tasks aborted: {}", p.msg)));
           }
-          Outcome::Applied => {}
+          Outcome::Applied | Outcome::Partial(..) => {}
         }
         // Known finding F1: every stale task already had, at the start of this bottom-up build, an inconsistent
         // dependency that is not a dependency on a reported resource (left behind by an earlier top-down or aborted
@@ -445,6 +454,7 @@ pub fn explore_program(prog: &Prog, class: Class, cfg: &HistCfg, stats: &mut Sta
           stats.tasks_executed += last.log.iter().filter(|e| matches!(e, crate::world::Ev::Enter(_))).count();
         }
         Outcome::Panicked(p) => { *stats.aborts.entry(format!("{:?}", panic_kind(p))).or_default() += 1; }
+        Outcome::Partial(_, ps) => { for p in ps { *stats.aborts.entry(format!("{:?}(session kept)", panic_kind(p))).or_default() += 1; } }
         Outcome::Applied => {}
       }
       if let Event::BottomUp { .. } = last.pev.ev { stats.in_scope_bottom_up += 1; }
